@@ -212,6 +212,11 @@ func cmdCheck(args []string) {
 			total++
 			stale = append(stale, r.Key+": "+e)
 		}
+		if len(r.SpecErrs) > 0 {
+			// the contract of this function is out of step with its code: none of its obligations means anything
+			// (clauses may be attached to the wrong loops or call sites); the function is undecided as a whole
+			continue
+		}
 		for qi := range r.Obs {
 			q := &r.Obs[qi]
 			if q.Kind != "vacuity" && !selected(q.Name) {
